@@ -66,6 +66,17 @@ func (t *sleepTransaction) Fail(e error) {
 	t.TransactionBase.Fail(e)
 }
 
+// finished reports whether the transaction has ended already: a reply or a
+// timer which comes too late must not revive it. Call with t.mu held.
+func (t *sleepTransaction) finished() bool {
+	select {
+	case <-t.Done():
+		return true
+	default:
+		return false
+	}
+}
+
 func (t *sleepTransaction) Sleep() error {
 	t.mu.Lock()
 	defer t.mu.Unlock()
@@ -97,7 +108,7 @@ func (t *sleepTransaction) Sleep() error {
 func (t *sleepTransaction) resendDisconnect() {
 	t.mu.Lock()
 	defer t.mu.Unlock()
-	if t.disconnect == nil {
+	if t.disconnect == nil || t.finished() {
 		// The reply has arrived while this timer was firing.
 		return
 	}
@@ -118,6 +129,9 @@ func (t *sleepTransaction) resendDisconnect() {
 func (t *sleepTransaction) Disconnect(disconnect *pkts1.Disconnect) {
 	t.mu.Lock()
 	defer t.mu.Unlock()
+	if t.finished() {
+		return
+	}
 	if t.state != awaitingDisconnect {
 		// Not a reply to our DISCONNECT: the gateway has ended the session.
 		t.log.Debug("Received DISCONNECT, quitting")
@@ -134,6 +148,9 @@ func (t *sleepTransaction) Disconnect(disconnect *pkts1.Disconnect) {
 func (t *sleepTransaction) Pingresp(pingresp *pkts1.Pingresp) {
 	t.mu.Lock()
 	defer t.mu.Unlock()
+	if t.finished() {
+		return
+	}
 	if t.state != awaitingPingresp {
 		t.log.Debug("Unexpected packet in %d: %v", t.state, pingresp)
 		return
@@ -157,6 +174,9 @@ func (t *sleepTransaction) startSleep() {
 func (t *sleepTransaction) wakeup() {
 	t.mu.Lock()
 	defer t.mu.Unlock()
+	if t.finished() {
+		return
+	}
 	t.client.setState(util.StateAwake)
 	t.log.Debug("Awake")
 	t.state = awaitingPingresp
